@@ -19,7 +19,7 @@ from .. import pt as PT
 from . import c05, c17
 
 PID = 'C18'
-QUERIES = ['sp_real_fp', 'sp_log_newton', 'sp_real_linear', 'sp_bool', 'sp_viterbi', 'sps_real', 'viterbi',
+QUERIES = ['fz_rule_nolabels', 'sp_real_fp', 'sp_log_newton', 'sp_real_linear', 'sp_bool', 'sp_viterbi', 'sps_real', 'viterbi',
            'fz_rule', 'fz_hrg_quickbb', 'fz_fgg_acb', 'conj_self', 'conj_other', 'fgg_json', 'hrg_json']
 
 
@@ -151,6 +151,10 @@ class World:
             if q == 'viterbi':
                 sh = AG.shape_of(a, a['start'])
                 return fggs.viterbi(self.vfgg, tuple(0 for _ in sh), semiring=fggs.ViterbiSemiring(dtype=torch.float64))
+            if q == 'fz_rule_nolabels':
+                # the rule with the most nodes (most likely to be split), labels argument omitted
+                r = max(self.fgg.all_rules(), key=lambda r: len(r.rhs.nodes()))
+                return FZ.factorize_rule(r, method='min_fill')
             if q == 'fz_rule':
                 return FZ.factorize_rule(self.fgg.all_rules()[0], method='min_fill', labels=set(self.fgg.edge_labels()))
             if q == 'fz_hrg_quickbb':
@@ -192,12 +196,31 @@ def what_differs(a, b):
     return ''
 
 
+def hmm_like(rng):
+    """a textbook shape: S -> start(v) X(v);  X(v) -> stop(v) | trans(v,w) emit(w,u) X(w)   (4-node chain rule)"""
+    n = rng.choice([2, 3])
+    els = {'S': {'t': False, 'type': []}, 'X': {'t': False, 'type': ['T']}, 'start': {'t': True, 'type': ['T']}, 'stop': {'t': True, 'type': ['T']},
+           'trans': {'t': True, 'type': ['T', 'T']}, 'emit': {'t': True, 'type': ['T', 'U']}, 'obs': {'t': True, 'type': ['U']}}
+    rules = [{'lhs': 'S', 'nodes': ['T'], 'edges': [{'lab': 'start', 'att': [1]}, {'lab': 'X', 'att': [1]}], 'ext': []},
+             {'lhs': 'X', 'nodes': ['T'], 'edges': [{'lab': 'stop', 'att': [1]}], 'ext': [1]},
+             {'lhs': 'X', 'nodes': ['T', 'T', 'U', 'T'], 'edges': [{'lab': 'trans', 'att': [1, 2]}, {'lab': 'emit', 'att': [2, 3]}, {'lab': 'obs', 'att': [3]},
+                                                               {'lab': 'trans', 'att': [2, 4]}, {'lab': 'X', 'att': [4]}], 'ext': [1]}]
+    nls = {'T': n, 'U': 2}
+    sh = lambda t: AG.numel([nls[x] for x in els[t]['type']])
+    w = {t: [rng.choice([1, 1, 2]) for _ in range(sh(t))] for t in els if els[t]['t']}
+    wmp = {t: [rng.choice([-2, -1, -1, 0]) for _ in range(sh(t))] for t in els if els[t]['t']}
+    return {'nls': nls, 'els': els, 'elorder': list(els), 'start': 'S', 'rules': rules, 'w': w, 'wmp': wmp}
+
+
 def drive(args):
     widx, hists, seed = args
     rng = rng_for(seed, f'c18w{widx}')
     flavour = ['dense', 'grad', 'patterned'][widx % 3]
-    a = AG.gen_ag(rng, n_nts=(1, 3), max_rules=2, max_nodes=3, max_edges=3, recursion=('linear' if widx % 2 else 'none'), weights='small',
-                  dom_sizes=(2, 2, 3), p_zero=0.1, mp_range=(-3, 0), p_norules=0.0, value_cap=1 << 30)
+    if widx in (1, 4):
+        a = hmm_like(rng)
+    else:
+        a = AG.gen_ag(rng, n_nts=(1, 3), max_rules=2, max_nodes=4, max_edges=3, recursion=('linear' if widx % 2 else 'none'), weights='small',
+                      dom_sizes=(2, 2, 3), p_zero=0.1, mp_range=(-3, 0), p_norules=0.0, value_cap=1 << 30)
     if widx % 2:
         # keep recursive real-valued sum-products finite: scale the natural weights into (0, 1/4]
         a = dict(a)
